@@ -1,4 +1,5 @@
 import CnlProofs.Scaled
+import CnlProofs.Quotient
 /-!
 # C02 — `/` and `%` on `scaled_integer` obey the integer-division contract
 
@@ -23,10 +24,25 @@ type of at least its rank), `r ≠ 0`, and not `lowest / -1` in a signed `T`.
 * `div_by_zero_undefined`, `div_overflow_undefined` — outside the guard the evaluation is undefined
   (as for the built-in operators), so the guard is not stronger than needed.
 
-The `quotient()` clause of C02 is proved with the fraction model (`CnlProofs.MakeFraction`), not here.
+The `quotient()` clause of C02: the fraction → scaled conversion it is built on is proved with the
+fraction model (`CnlProofs.MakeFraction`); the function itself on two scaled integers over built-in
+representations (`Scaled.quotient`, radix 2) is proved here.  `D` is the result's storage type
+`set_digits_t<T, max (digits L + digits R) (digits T)>`, `dR = digits R`:
+
+* `quotient_correct` — under the exact guard (`D` holds `l` and `r` unchanged, `r ≠ 0`, not
+  `lowest / -1`) the result has type `D`, exponent `eL - eR - dR` and representation
+  `(l · 2^dR).tdiv r`; `quotient_correct_std` discharges the guard for operand types with an even
+  number of bits (all the standard ones) when the common type is signed or both operands are
+  non-negative: only `r ≠ 0` remains.
+* `quotient_wide_enough` — `l · 2^dR` is in range of `D` for every `l` (no input overflows the
+  widened dividend); with no guard at all the evaluation is a value or one of the two undefined
+  cases of the built-in division (`/ 0`, `lowest / -1`) — never a signed overflow.
+* `quotient_error_below_one_unit` — the result is the true quotient `l·2^dR / r` truncated toward
+  zero (`IsRounded .truncate`), i.e. `|q| ≤ |l·2^dR / r| < |q| + 1`: the error is less than one unit
+  of the result's resolution `2^(eL - eR - dR)`.
 -/
 namespace Cnl.C02
-open Cnl Cnl.Spec Cnl.Layered Cnl.ScaledP
+open Cnl Cnl.Spec Cnl.Layered Cnl.ScaledP Cnl.QuotientP
 
 /-- representation values and exponents of `a / b` and `a % b` -/
 theorem div_mod_values (L R : IntTy) (eL eR : Int) (ρ : Nat) (l r : Int) (g : DivGuard L R l r) :
@@ -89,6 +105,73 @@ theorem div_overflow_undefined (L R : IntTy) (eL eR : Int) (ρ : Nat) (l r : Int
   simp only [cBin, hl, hr, hs, and_self, ite_true]
   rfl
 
+
+/-! ## `quotient(a, b)` -/
+
+/-- `quotient(a, b)`: type, exponent and representation of the result.  `D` is the storage type
+chosen by `set_digits`; the guard is exactly what the two conversions and the built-in division
+need (`QuotGuard`): `D` holds both representations unchanged, the divisor is not zero, and the
+division is not `lowest / -1`.  `1 ≤ L.digits`: the dividend type has at least one value digit
+(every built-in type has), otherwise `power_value<D, dR>` may not be instantiable. -/
+theorem quotient_correct (L R D : IntTy) (hL : 1 ≤ L.digits) (eL eR : Int) (l r : Int) (hl : L.InRange l)
+    (hD : Scaled.setDigitsInt (usualArith L R).signed (max (L.digits + R.digits) (usualArith L R).digits) = some D)
+    (hwl : D.wrap l = l) (hwr : D.wrap r = r) (hr0 : r ≠ 0)
+    (hov : ¬ (D.signed = true ∧ l * 2^R.digits = D.lowest ∧ r = -1)) :
+    Scaled.quotient L eL R eR l r = .ok (D, eL - eR - R.digits, (l * 2^R.digits).tdiv r) :=
+  quotient_eval hL eL eR hl hD ⟨hwl, hwr, hr0, hov⟩
+
+/-- the guard discharged for the standard operand types (even number of bits): if the common type
+of the representations is signed (e.g. both operands signed, or an unsigned operand of lower rank),
+or both operands are non-negative, every non-zero divisor is fine -/
+theorem quotient_correct_std (L R D : IntTy) (hL : 1 ≤ L.digits) (hR : 1 ≤ R.bits)
+    (hLe : L.bits % 2 = 0) (hRe : R.bits % 2 = 0) (eL eR : Int) (l r : Int)
+    (hl : L.InRange l) (hr : R.InRange r)
+    (hD : Scaled.setDigitsInt (usualArith L R).signed (max (L.digits + R.digits) (usualArith L R).digits) = some D)
+    (hs : (usualArith L R).signed = true ∨ (0 ≤ l ∧ 0 ≤ r)) (hr0 : r ≠ 0) :
+    Scaled.quotient L eL R eR l r = .ok (D, eL - eR - R.digits, (l * 2^R.digits).tdiv r) := by
+  have hLb : 1 ≤ L.bits := by unfold IntTy.digits at hL; split at hL <;> omega
+  have f := storage_facts hD
+  have hb : 1 ≤ D.bits := by have := f.bits; omega
+  apply quotient_eval hL eL eR hl hD
+  refine ⟨IntTy.wrap_id hb (storage_inRange_left hD hLb hl ?_), IntTy.wrap_id hb (storage_inRange_right hD hR hr ?_),
+    hr0, nov_of_even_bits hD hLe hRe hLb hR hl hr⟩
+  · rcases hs with hs | hs
+    · exact Or.inl hs
+    · exact Or.inr hs.1
+  · rcases hs with hs | hs
+    · exact Or.inl hs
+    · exact Or.inr hs.2
+
+/-- the storage type is wide enough: the dividend shifted left by the divisor's digits is in range
+of `D` for every dividend `D` can hold (`|l| ≤ 2^dL ⇒ |l·2^dR| ≤ 2^(dL+dR) ≤ 2^(digits D)`), and —
+with no guard on the operands at all — the evaluation is a value or one of the two undefined cases
+of the built-in division; in particular the widening multiplication never overflows -/
+theorem quotient_wide_enough (L R D : IntTy) (hL : 1 ≤ L.digits) (hR : 1 ≤ R.bits) (eL eR : Int) (l r : Int)
+    (hl : L.InRange l) (hr : R.InRange r)
+    (hD : Scaled.setDigitsInt (usualArith L R).signed (max (L.digits + R.digits) (usualArith L R).digits) = some D) :
+    (D.InRange l → D.InRange (l * 2^R.digits))
+    ∧ ((∃ q, Scaled.quotient L eL R eR l r = .ok (D, eL - eR - R.digits, q))
+        ∨ Scaled.quotient L eL R eR l r = .ub .divByZero
+        ∨ Scaled.quotient L eL R eR l r = .ub .divOverflow)
+    ∧ Scaled.quotient L eL R eR l r ≠ .ub .signedOverflow := by
+  have h := quotient_ub_cases hL hR eL eR hl hr hD
+  refine ⟨scaled_inRange hD hl, h, ?_⟩
+  rcases h with ⟨q, h⟩ | h | h <;> rw [h] <;> simp
+
+/-- the result is the true quotient truncated toward zero at the result's resolution: with
+`n = l·2^dR` (so that `a / b = (n / r) · 2^(eL - eR - dR)` exactly) the representation `q` of the
+result is `n / r` rounded toward zero, and `0 ≤ |n / r| - |q| < 1` (stated multiplied through by
+`|r|`): the error is below one unit of the last place of the result -/
+theorem quotient_error_below_one_unit (L R D : IntTy) (hL : 1 ≤ L.digits) (eL eR : Int) (l r : Int) (hl : L.InRange l)
+    (hD : Scaled.setDigitsInt (usualArith L R).signed (max (L.digits + R.digits) (usualArith L R).digits) = some D)
+    (g : QuotGuard L R D l r) :
+    ∃ q, Scaled.quotient L eL R eR l r = .ok (D, eL - eR - R.digits, q)
+      ∧ IsRounded .truncate (l * 2^R.digits) r q
+      ∧ q.natAbs * r.natAbs ≤ (l * 2^R.digits).natAbs
+      ∧ (l * 2^R.digits).natAbs < (q.natAbs + 1) * r.natAbs :=
+  ⟨_, quotient_eval hL eL eR hl hD g, roundDiv_truncate _ r g.r0,
+    (tdiv_magnitude _ r g.r0).1, (tdiv_magnitude _ r g.r0).2⟩
+
 /-! Non-vacuity -/
 
 example : DivGuard i32 i16 (-7) 2 := ⟨by decide, by decide, by decide, by decide⟩
@@ -99,5 +182,18 @@ example : divModIdentity (sc u8 5 2 200) (sc i8 (-70) 2 (-3)) = .ok true := by d
 -- outside the guard: a negative dividend meets an unsigned divisor type of rank `int`
 example : ¬ DivGuard i32 u32 (-7) 2 := fun g => absurd g.wl (by decide)
 example : Layered.bin .div (sc i32 0 2 (-7)) (sc u32 0 2 2) = .ok (sc u32 0 2 2147483644) := by decide
+
+-- `quotient`: storage types exist and the guard is satisfiable
+example : Scaled.setDigitsInt (usualArith i16 i16).signed (max (i16.digits + i16.digits) (usualArith i16 i16).digits) = some i32 := by decide
+example : Scaled.setDigitsInt (usualArith i32 i32).signed (max (i32.digits + i32.digits) (usualArith i32 i32).digits) = some i64 := by decide
+example : QuotGuard i32 i32 i64 (-7) 2 := by decide
+example : QuotGuard u8 i16 i32 200 (-3) := by decide
+example : Scaled.quotient i16 (-8) i16 (-4) 300 7 = .ok (i32, -19, 1404342) := by decide +kernel
+example : Scaled.quotient i32 0 i32 0 (-7) 2 = .ok (i64, -31, -7516192768) := by decide
+example : Scaled.quotient u8 0 u8 0 200 3 = .ok (i32, -8, 17066) := by decide +kernel
+example : IsRounded .truncate (-7 * 2^31) 2 (-7516192768) := by decide
+example : Scaled.quotient i32 0 i32 0 (-7) 0 = .ub .divByZero := by decide
+-- outside the guard: a negative dividend meets an unsigned storage type
+example : ¬ QuotGuard i32 u32 u64 (-7) 2 := by decide
 
 end Cnl.C02
